@@ -469,6 +469,31 @@ def symx_is(x):
     return is_sym(x)
 
 
+class DerivedS1(S1):
+    """a subclass of an element class: its template builds the subclass"""
+
+    def __init__(self, target, a, b=0):
+        super().__init__(target, a, b)
+
+
+def subclass_templates(ctx):
+    """templates of a class and of its subclass are independent, whichever is asked for first"""
+    order = ctx.choice("first", 2)
+    a = ctx.num("a", "int")
+    names = [S1, DerivedS1] if order == 0 else [DerivedS1, S1]
+    bare = [c.s() for c in names]  # bare templates first (what a cache would remember)
+    pool = RecPool()
+    ctx.reach()
+    for cls, t in zip(names, bare):
+        del LOG[:]
+        obj = t(a) >> pool
+        ctx.require(type(obj) is cls and len(LOG) == 1 and same(LOG[0][2][0], a),
+                    "the template of a class builds that very class")
+    del LOG[:]
+    obj = DerivedS1.s(a, b=a) >> pool
+    ctx.require(type(obj) is DerivedS1, "arguments that can bind to the subclass are accepted")
+
+
 def stepwise_template(ctx):
     """UnboundStepwise.s is a leaf-marked template of a controller: binding needs a pool"""
     def base(pool, interval):
@@ -486,7 +511,8 @@ def stepwise_template(ctx):
 def tasks(tier, seed):
     out = [Task(MOD, "eager", dict(family="harness"), model="Z", weight=50, shards=8),
            Task(MOD, "eager", dict(family="shipped"), model="Z", weight=30, shards=4),
-           Task(MOD, "stepwise_template", model="Z"), Task(MOD, "curry_reuse", model="Z")]
+           Task(MOD, "stepwise_template", model="Z"), Task(MOD, "curry_reuse", model="Z"),
+           Task(MOD, "subclass_templates", model="Z")]
     for n in range(2, (4 if tier == "quick" else 5)):
         for j in range(1, n):
             out.append(Task(MOD, "reuse", dict(n=n, j=j), model="Z", weight=4 ** n, witness_every=1 if n < 4 else 7))
